@@ -42,10 +42,47 @@ func saltedSeed(seed []byte, salt string) []byte {
 	return out
 }
 
-// upper bound on 64-bit draws of one generateRandomizedSpec call without redraws
-// (1 ALPN + 22 Perm + 1 + 1 Intn + 2 + 21 removal + 4 + 10 + 3 + 5 + 3 + 14 = 87; measured max 87) plus
-// room for 9 redraws in the rejection loops (each has probability < 2^-26).
-const mainWords = 96
+// Number of 64-bit words of the main stream to hand to the model: what the call consumes when no
+// rejection loop redraws (read off the shape of the returned spec; at most
+// 1 ALPN + 22 Perm + 1 + 1 Intn + 2 + 21 removal + 4 + 10 + 3 + 5 + 3 + 14 = 87), plus room for 4 redraws
+// (each redraw has probability < 2^-26). Too short a prefix would show up as a mismatch (model: Err 99).
+// Kept tight because Coq's front end, not vm_compute, dominates the cost of a case.
+func wordsNeeded(g *gen, o obs, tb *tables) int {
+	n := len(tb.rows) + 1
+	if g.client == "Randomized" {
+		n++
+	}
+	is13 := o.max == tls.VersionTLS13
+	l := len(tb.rows)
+	if is13 {
+		n += 1 + len(tb.tls13) - 1
+		l = len(tb.tls13)
+		for _, row := range tb.rows {
+			if !has(rc4, row.ID) {
+				l++
+			}
+		}
+	}
+	if l > 1 {
+		n += l - 1
+	}
+	n += 3
+	if sig := o.find("ESigAlgs"); sig != nil {
+		if has(sig.nums, uint16(tls.PSSWithSHA256)) {
+			n++
+		}
+		n += len(sig.nums) - 1
+	}
+	n += 3 + 5
+	if ks := o.find("EKeyShare"); is13 && ks != nil {
+		n++
+		if !(len(ks.nums) == 1 && ks.nums[0] == uint16(tls.CurveP256)) {
+			n += 2
+		}
+	}
+	n += len(o.exts) - 1
+	return n + 4
+}
 
 // streams and float64 bit patterns are emitted as bytes (Coq parses small numerals much faster than 20-digit ones)
 func words(ws []uint64) string {
@@ -557,9 +594,29 @@ func runOne(c *vh.Ctx, r *reporter, tb *tables, g *gen, emit bool) {
 	if w == nil {
 		w = weightsVec(&tls.DefaultWeights)
 	}
-	main := shakeWords(g.seed[:], mainWords)
+	nw := 0
+	if err1 == nil {
+		nw = wordsNeeded(g, o1, tb)
+		c.Count(fmt.Sprintf("stream_words_%02d", nw/10*10))
+	}
+	main := shakeWords(g.seed[:], nw)
 	salted := shakeWords(saltedSeed(g.seed[:], "ALPS"), 1)
-	term := fmt.Sprintf("CGen %s %s %s %s %s %s %s", variantOf(g.client), wbits(w), vh.Str(g.server), protosCoq(g.protos), words(main), words(salted), res)
+	// weights: [] = id.Weights nil (DefaultWeights, snapshot checked by the CDefaults case); 8 bytes = all 17 equal; else 17*8 bytes
+	wenc := wbits(w)
+	if g.w == nil {
+		wenc = "[]"
+	} else {
+		same := true
+		for _, x := range w {
+			if math.Float64bits(x) != math.Float64bits(w[0]) {
+				same = false
+			}
+		}
+		if same {
+			wenc = wbits(w[:1])
+		}
+	}
+	term := fmt.Sprintf("CGen %s %s %s %s %s %s %s", variantOf(g.client), wenc, vh.Str(g.server), protosCoq(g.protos), words(main), words(salted), res)
 	key := fmt.Sprintf("%s/%x/%s/%s/%v/%s", g.client, g.seed[:], g.wname, g.server, g.protos, wbits(w))
 	var sample any
 	if err1 == nil {
@@ -608,6 +665,7 @@ func run(c *vh.Ctx) {
 			uint16(pt), uint16(tls.RenegotiateOnceAsClient), uint16(psk),
 			tls.TLS_RSA_WITH_RC4_128_SHA, tls.TLS_ECDHE_ECDSA_WITH_RC4_128_SHA, tls.TLS_ECDHE_RSA_WITH_RC4_128_SHA}
 		c.Case("consts", "CConsts "+vh.U16s(consts), "consts", true, nil)
+		c.Case("defaults", "CDefaults "+wbits(weightsVec(&tls.DefaultWeights)), "defaults", true, nil)
 	}
 
 	wsets := []struct {
